@@ -49,6 +49,16 @@ class EnumMixed(enum.Enum):
     N = None
 
 
+class EnumStrMix(str, enum.Enum):        # the pre-3.11 spelling of a string enum
+    RED = 'red'
+    BLUE = 'blue'
+
+
+class EnumIntMix(enum.IntEnum):
+    LO = 1
+    HI = 2
+
+
 class SubStr(str):
     pass
 
@@ -122,6 +132,14 @@ DC_SPECS = {
                       fields=[_f('p', 'dc_both'), _f('q', ['optional', 'dc_struct'], ['value', 'None'])]),
 }
 
+# an Optional field whose default is not None (an explicit None must survive), class style + field rename not in that style
+DC_SPECS['dc_optdef'] = dict(name='DcOptdef', opts={}, fields=[_f('name', 'str'), _f('retries', ['optional', 'int'], ['value', '3']),
+                                                                _f('tags', ['optional', ['list', 'int']], ['factory', 'list'])])
+DC_SPECS['dc_renstyle'] = dict(name='DcRenstyle', opts={'rename': 'camel'},
+                               fields=[_f('unit_price', 'int', rename='Unit_Price'), _f('item_count', 'int', ['value', '1'])])
+# three product levels: the middle one has a required field next to the nested one
+DC_SPECS['dc_mid'] = dict(name='DcMid', opts={}, fields=[_f('c', 'dc_struct'), _f('req', 'int'), _f('opt', 'int', ['value', '0'])])
+DC_SPECS['dc_deep'] = dict(name='DcDeep', opts={}, fields=[_f('m', 'dc_mid')])
 # natively typed field values of every scalar family (constructors must accept already-typed arguments unchanged)
 DC_SPECS['dc_rich'] = dict(name='DcRich', opts={'in_format': ['struct', 'tuple']},
                            fields=[_f('f', 'fraction'), _f('d', 'date', ['value', "date.fromisoformat('2020-02-02')"]),
@@ -169,6 +187,7 @@ LEAF_TYPES: t.Dict[str, t.Callable[[], t.List[t.Any]]] = {
     'path': lambda: [pathlib.Path], 'pathlike': lambda: [os.PathLike],
     'any': lambda: [t.Any],
     'enum_int': lambda: [EnumInt], 'enum_str': lambda: [EnumStr], 'enum_mixed': lambda: [EnumMixed],
+    'enum_strmix': lambda: [EnumStrMix], 'enum_intmix': lambda: [EnumIntMix],
     'lit_str': lambda: [t.Literal['a', 'b']], 'lit_mixed': lambda: [t.Literal[1, 'a', None]],
     'sub_str': lambda: [SubStr], 'sub_int': lambda: [SubInt], 'sub_float': lambda: [SubFloat],
     'sub_list': lambda: [SubList], 'sub_dict': lambda: [SubDict],
@@ -264,6 +283,9 @@ def _ext(name):
         import numpy
         _EXT_CACHE['vol_int'] = pin(ValueOrList[int])
         _EXT_CACHE['vol_str'] = pin(ValueOrList[str])
+        _EXT_CACHE['vol_tuple'] = pin(ValueOrList[t.Tuple[int, int]])
+        _EXT_CACHE['vol_list'] = pin(ValueOrList[t.List[int]])
+        _EXT_CACHE['vol_range'] = pin(ValueOrList[Range[int]])
         _EXT_CACHE['range_int'] = pin(Range[int])
         _EXT_CACHE['range_float'] = pin(Range[float])
         _EXT_CACHE['ndarray'] = numpy.ndarray
@@ -272,17 +294,20 @@ def _ext(name):
     return _EXT_CACHE[name]
 
 
-EXT_LEAVES = ['tag_int', 'tag_ext', 'tag_adj', 'tag_num', 'hasconv', 'vol_int', 'vol_str', 'range_int', 'range_float',
+EXT_LEAVES = ['tag_int', 'tag_ext', 'tag_adj', 'tag_num', 'hasconv', 'vol_int', 'vol_str', 'vol_tuple', 'vol_list', 'vol_range',
+              'range_int', 'range_float',
               'ndarray', 'ndarray_int', 'enum_tuple']
 for _k in EXT_LEAVES:
     LEAF_TYPES[_k] = (lambda k=_k: [_ext(k)])
 EXT_MEMBERS = {
     'tag_int': [{'x': 'v1', 'y': 3}, {'x': 'v2'}, {'y': 'q', 'x': 'v2'}],
     'tag_ext': [{'v1': {'y': 3}}, {'v2': {}}],
-    'tag_adj': [{'t': 'v1', 'c': {'y': 3}}, {'c': {}, 't': 'v2'}],
+    'tag_adj': [{'t': 'v1', 'c': {'y': 3}}, {'c': {}, 't': 'v2'}, {'c': {'y': 'q'}, 't': 'v2'}],
     'tag_num': [{'t': 1, 'c': {'y': 3}}, {'t': 2, 'c': {'y': [1, 2]}}],
     'hasconv': ['gb', 'us'],
     'vol_int': [5, [1, 2], []], 'vol_str': ['a', ['a', 'b']],
+    'vol_tuple': [(1, 2), [[1, 2], [3, 4]], [1, 2]], 'vol_list': [[1, 2], [[1], [2, 3]], []],
+    'vol_range': [[0, 10, 11], [[0, 10, 11]], {'start': 0, 'end': 4, 'n': 5}],
     'range_int': [{'start': 0, 'end': 10, 'n': 11}, [0, 10, 11], {'start': 0, 'end': 10, 'step': 2}],
     'range_float': [{'start': 0.0, 'end': 1.0, 'n': 3}, [0.5, 1, 2]],
     'ndarray': [[[1, 2], [3, 4]], [1.5], 5, []], 'ndarray_int': [[1, 2], [[1], [2]], 3],
@@ -290,13 +315,13 @@ EXT_MEMBERS = {
 }
 # leaves whose images are hashable (usable as set elements / dict keys)
 HASHABLE_LEAVES = ['int', 'float', 'complex', 'str', 'bytes', 'bool', 'none', 'decimal', 'fraction', 'date', 'time',
-                   'datetime', 'pattern', 'purepath', 'enum_int', 'enum_str', 'enum_mixed', 'lit_str', 'lit_mixed',
+                   'datetime', 'pattern', 'purepath', 'enum_int', 'enum_str', 'enum_mixed', 'enum_strmix', 'enum_intmix', 'lit_str', 'lit_mixed',
                    'sub_str', 'sub_int', 'empty_tuple']
 # reduced leaf set for the second position of binary constructors and for depth 3
 CORE_LEAVES = ['int', 'float', 'str', 'bool', 'none', 'bytes', 'decimal', 'any']
 KEY_LEAVES = ['str', 'int', 'float', 'enum_str', 'lit_str', 'date']
 
-CONDS = ['positive', 'len_le2', 'nonempty', 'raises']
+CONDS = ['positive', 'len_le2', 'nonempty', 'raises', 'or_raises']
 EXT_CONDS = ['nonbool', 'even']       # user predicates: returns a non-bool truthy/falsy value; a pure parity test
 
 
@@ -312,8 +337,12 @@ def cond_obj(name):
             c = A.NonEmpty
         elif name == 'raises':
             def boom(v):
-                raise ZeroDivisionError("predicate exploded")
+                raise PredicateBoom("predicate exploded")       # not in any builtin exception family
             c = A.Condition(boom, 'boom')
+        elif name == 'or_raises':
+            def boom2(v):
+                raise PredicateBoom("predicate exploded")
+            c = A.Condition(lambda v: False, 'never') | A.Condition(boom2, 'boom')
         elif name == 'nonbool':
             c = A.Condition(lambda v: 'yes' if v else '', 'truthy')
         elif name == 'even':
@@ -327,6 +356,10 @@ def cond_obj(name):
 _COND_CACHE: t.Dict[str, t.Any] = {}
 
 
+class PredicateBoom(Exception):
+    pass
+
+
 def cond_eval(name, image):
     """Reference evaluation of a condition on a converted value: True / False / 'raise'."""
     try:
@@ -336,7 +369,7 @@ def cond_eval(name, image):
             return len(image) <= 2
         if name == 'nonempty':
             return len(image) != 0
-        if name == 'raises':
+        if name in ('raises', 'or_raises'):
             return 'raise'
     except Exception:
         return 'raise'
@@ -544,7 +577,9 @@ def expressions(tier: str) -> t.List[t.Any]:
     # key / element types whose images are unhashable (the mapping or set cannot be built)
     for e in (['dict', ['list', 'str'], 'int'], ['dict', 'bare_list', 'int'], ['dict', ['tuplevar', ['list', 'int']], 'int'],
               ['counter', ['list', 'int']], ['dict', 'bare_dict', 'str'], ['set', ['tuplevar', 'bare_list']],
-              ['dict', ['union', 'int', ['list', 'int']], 'int']):
+              ['dict', ['union', 'int', ['list', 'int']], 'int'], ['dict', ['frozenset', ['frozenset', 'int']], 'int'],
+              ['dict', ['tuple', ['frozenset', 'int'], 'int'], 'str'], ['dict', ['tuplevar', ['frozenset', 'str']], 'int'],
+              ['dict', 'dc_tupleout', 'int'] if False else ['set', ['frozenset', 'int']]):
         add(e)
     # members whose own error node is a sum (Annotated[Union], mixed enum) inside an outer union; raising conditions in unions
     for e in (['union', 'str', ['annot', ['union', 'int', 'float'], 'positive']], ['union', 'enum_mixed', ['list', 'int']],
